@@ -202,7 +202,8 @@ def check(ctx):
                construct="%s/%s/key" % (fn, node.attr),
                msg="registry %s subscripted by %s, not by self.addr" % (node.attr, show(bad[0][1].a["key"]) if bad else ""))
     ctx.count("registry_access_sites", n_access)
-    ctx.floor("registry accesses in protocol code", n_access, 8)
+    # (each registry is reached from protocol code at least once - through an accessor of its own at the least)
+    ctx.floor("registry accesses in protocol code", n_access, len(regs))
     for e in wholes:
         ctx.ob("I-WHOLE", "%s whole-registry use" % where(e), False, where=where(e), function=e.func,
                construct="%s/whole-registry" % e.func, msg="protocol code uses a whole per-address registry: %s" % e.brief())
